@@ -412,6 +412,13 @@ func (ex *Exec) callKnown(st *State, site ssa.CallInstruction, cl *ClosureV, arg
 	fn := cl.Fn
 	sel := shortName(fn.String())
 	con := ex.w.cons[sel]
+	if con == nil {
+		if fname, ok := ex.w.filterNames[fn]; ok {
+			if c2 := ex.w.cons[fmt.Sprintf("filter %q", fname)]; c2 != nil {
+				con, sel = c2, fmt.Sprintf("filter %q", fname)
+			}
+		}
+	}
 	sig := fn.Signature
 	if sig.Recv() != nil && len(args) > 0 && ex.w.inRepo(fn) && site != nil {
 		if t, ok := args[0].(Term); ok {
